@@ -2453,6 +2453,9 @@ func decodeLACPCounters(data *[]byte) (SFlowLACPCounters, error) {
 	la := SFlowLACPCounters{}
 	var cdf SFlowCounterDataFormat
 
+	if len(*data) < 64 {
+		return la, errors.New("LACP counters too small")
+	}
 	*data, cdf = (*data)[4:], SFlowCounterDataFormat(binary.BigEndian.Uint32((*data)[:4]))
 	la.EnterpriseID, la.Format = cdf.decode()
 	*data, la.FlowDataLength = (*data)[4:], binary.BigEndian.Uint32((*data)[:4])
